@@ -329,14 +329,23 @@ HO_INV = ['pool is not stack', 'owned(pool) and owned(stack) and owned(result)',
           # every listed entry is well-formed and strictly contains the position
           'forall(0, len(result), lambda i: btag_ok(result[i], len(source), pos))']
 
+# C09/C16: every listed entry slices exactly to its tags: `<name ...>` and, when paired, `</name>`
+BAL_SHAPE = ['forall(0, len(%(l)s), lambda i: open_shape(%(l)s[i].open[0], %(l)s[i].open[1], %(l)s[i].name, source))',
+             'forall(0, len(%(l)s), lambda i: %(l)s[i].close is None or '
+             ' close_shape(%(l)s[i].close[0], %(l)s[i].close[1], %(l)s[i].name, source))']
+HO_INV = HO_INV + [
+    'forall(0, len(stack), lambda i: open_shape(stack[i].start, stack[i].end, stack[i].name, source))',
+] + [c % {'l': 'result'} for c in BAL_SHAPE]
+
 fn('emmet.html_matcher:balanced_outward.<locals>.scan_callback', props=P,
    params=HCB_PARAMS, returns='bool|None', captures=HO_CAP,
-   requires=HCB_REQ, closure_invariant=HO_INV, modifies=['owned'],
+   requires=HCB_REQ_FULL, closure_invariant=HO_INV, modifies=['owned'],
    ghost_update=[('g_last_end', 'end')])
 
 fn('emmet.html_matcher:balanced_outward', props=P,
    params={'source': 'str', 'pos': 'int', 'opt': 'any'}, returns='list[BalancedTag]',
    requires=[],
-   ensures=['forall(0, len(result), lambda i: btag_ok(result[i], len(source), pos))', NESTED],
+   ensures=['forall(0, len(result), lambda i: btag_ok(result[i], len(source), pos))', NESTED]
+           + [c % {'l': 'result'} for c in BAL_SHAPE],
    modifies=[], allocates=True,
    locals={'pool': 'list[Tag]', 'stack': 'list[Tag]', 'result': 'list[BalancedTag]'})
